@@ -16,6 +16,7 @@ impl Property for C01 {
             Segment::random("medium", tier.pick(60_000, 600_000), &[1], 8, 300),
             Segment::random("large", tier.pick(5_000, 60_000), &[2], 8, 300),
             Segment::enumerated("huge(>2^32 bits)", tier.pick(5, 30), &[9]),
+            Segment::enumerated("huge-dense(>2^33 bits, all ones)", tier.pick(1, 3), &[10]),
         ]
     }
     fn rule(&self) -> &'static str {
@@ -23,10 +24,10 @@ impl Property for C01 {
     }
     fn run(&self, data: &[u8], cx: &mut Ctx) -> R {
         let (mode, rest) = data.split_first().unwrap_or((&0, &[]));
-        if *mode == 9 {
+        if *mode == 9 || *mode == 10 {
             let mut b = [0u8; 8];
             b[..rest.len().min(8)].copy_from_slice(&rest[..rest.len().min(8)]);
-            let j = u64::from_le_bytes(b);
+            let j = u64::from_le_bytes(b) + if *mode == 10 { 1000 } else { 0 };
             cx.hash(&("huge", j));
             cx.describe(|| format!("huge case {j}: more than 2^32 bits, pattern {}", j % 5));
             return crate::huge::rank_case(cx, j);
